@@ -48,6 +48,10 @@ class Client:
 
     def rx(self, f):
         f = (list(f) + [0] * 8)[:8]
+        # objects of the node that are not part of the logged dictionary (1000h, 1001h, 1200h, 1201h: mandatory / server parameters)
+        # are never named, or the reference would call them missing (seen once in 25 000 behaviours: a random frame named 1200h:E7h)
+        if f[2] in (0x10, 0x12) and f[1] in (0x00, 0x01):
+            f[2] = 0x30
         self.ev.append(["rx", RX, 8] + f)
 
     def dump(self, o):
